@@ -63,8 +63,19 @@ def _wide(case, bad):
     testB = [None] + cats[::-1]
     m = len(testA)
     cnt = ntriv = 0
-    for single, skip, explicit in itertools.product((False, True), (False, True), (True, False)):
+    train_obj = train
+    for single, skip, explicit, tdtype in itertools.product((False, True), (False, True), (True, False), ("object", "category")):
         cond0 = "single=%s,skip_errors=%s,%d categories" % (single, skip, n)
+        train = train_obj
+        if tdtype == "category":
+            if not explicit:
+                continue
+            # pandas categorical columns whose dtype DECLARES categories that do not occur in the rows (as after df[mask] or a split):
+            # only the values that occur were seen by fit
+            train = train_obj.copy()
+            train["A"] = pandas.Categorical(train_obj["A"], categories=sorted(set(cats) | {"ghost"}))
+            train["B"] = pandas.Categorical(train_obj["B"], categories=sorted(set(cats) | {"ghost", "zz"}))
+            cond0 += ",training columns of category dtype"
         try:
             tr = CategoriesToIntegers(columns=["A", "B"] if explicit else None, skip_errors=skip, single=single).fit(train)
         except Exception as e:
